@@ -40,12 +40,18 @@ use crate::{
     realrun::{real_run, RunOut},
 };
 
-fn over_capacity(o: &Obs) -> Option<String> {
+/// Sizes are judged against the *configured* maxima (what the state was built with), not
+/// against whatever the observed state now claims its maxima are: an instruction that
+/// silently lifts a limit must not be able to hide the overflow it enables.
+fn over_capacity(o: &Obs, configured: &[usize; 4]) -> Option<String> {
     let names = ["exec", "int", "float", "bool"];
     let sizes = o.sizes();
     for k in 0..4 {
-        if sizes[k] > o.caps[k] {
-            return Some(format!("{} stack holds {} > max {}", names[k], sizes[k], o.caps[k]));
+        if sizes[k] > configured[k] {
+            return Some(format!("{} stack holds {} > configured max {}", names[k], sizes[k], configured[k]));
+        }
+        if o.caps[k] != configured[k] {
+            return Some(format!("the maximum size of the {} stack changed from {} to {} during evaluation", names[k], configured[k], o.caps[k]));
         }
     }
     None
@@ -81,6 +87,7 @@ fn mirror(m0: &MState, st0: PushState, keep: usize, cap_steps: usize, origin: &s
     let mut states = vec![st.clone()];
     let mut k = 0usize;
     let limit = m0.step_limit.min(cap_steps);
+    let mut reported_capacity = false;
     while k < limit {
         let Ok(p) = st.stack_mut::<PushProgram>().pop() else { break };
         let mp = from_real(&p);
@@ -129,7 +136,10 @@ fn mirror(m0: &MState, st0: PushState, keep: usize, cap_steps: usize, origin: &s
         }
         k += 1;
         let o = observe(&st);
-        if let Some(why) = over_capacity(&o) {
+        if let Some(why) = over_capacity(&o, &m0.caps).filter(|_| !reported_capacity) {
+            // report the first instruction after which a stack is above its maximum; later
+            // steps of the same run would only repeat it
+            reported_capacity = true;
             rep.violation(format!("C03/{name}/stack-above-maximum"), || {
                 json!({"origin": origin, "instruction": mp.render(), "why": why, "state_before": before.to_json(), "state_after": o.to_json()})
             });
@@ -170,7 +180,7 @@ fn loop_case(m0: &MState, origin: &str, keep: usize, rep: &mut Report) {
             rep.count("long-run:returned");
             match &out {
                 RunOut::Ok(s) | RunOut::Fatal(s, _) => {
-                    if let Some(why) = over_capacity(&observe(s)) {
+                    if let Some(why) = over_capacity(&observe(s), &m0.caps) {
                         rep.violation("C03/run/stack-above-maximum", || {
                             json!({"origin": origin, "program_state": m0.to_json(), "why": why})
                         });
@@ -241,7 +251,7 @@ fn loop_case(m0: &MState, origin: &str, keep: usize, rep: &mut Report) {
         // invariants on what came back, whatever the mirror says
         match &out {
             RunOut::Ok(s) | RunOut::Fatal(s, _) => {
-                if let Some(why) = over_capacity(&observe(s)) {
+                if let Some(why) = over_capacity(&observe(s), &m0.caps) {
                     rep.violation("C03/run/stack-above-maximum", || {
                         json!({"origin": origin, "program_state": m0.to_json(), "step_limit": l, "why": why, "result": describe(&out)})
                     });
